@@ -65,7 +65,7 @@ def main():
         ok = log.get("build") == "ok" and (nodemo or (log.get("demo_clean") == "PASS" and log.get("demo_patched") == "FAIL"))
         log["confirmed"] = ok
         print(json.dumps(log, indent=1))
-        if ok:
+        if ok and not nodemo:
             dst = os.path.join(VERIF, "seeded", sid)
             os.makedirs(dst, exist_ok=True)
             for f in ["patch.diff", "zz_demo_test.go", "where.txt"]:
